@@ -1,15 +1,15 @@
-\* thorough: 3 contracts, 2 groups, stack depth <= 3, <= 2 table changes per transaction, 2 transactions (same / next block), leaf frames without ReadStates; no try blocks
+\* thorough: ONE transaction with try blocks, depth <= 3, <= 2 changes, two initial tables
 SPECIFICATION ISpec
 CONSTANTS
-  Universe = "quick"
+  Universe = "full"
   Bug = "none"
   Contracts <- MCContracts
   Groups <- MCGroups
   InitTables <- MCInitTables
   MaxDepth = 3
   MaxChanges = 2
-  MaxTx = 2
-  WithTry = FALSE
+  MaxTx = 1
+  WithTry = TRUE
   WithNoRS = TRUE
 INVARIANTS ImplAgrees Coherent
 
